@@ -45,7 +45,7 @@ impl AccountOptions {
     pub fn private_key(&self) -> Result<PrivateKey> {
         let seed = self.mnemonic.seed(&self.password);
         let path = match &self.hd_path {
-            None => hdk::Path::for_index(self.account_index),
+            None => hdk::Path::for_index(self.account_index)?,
             Some(hd_path) => hd_path.parse()?,
         };
         hdk::derive(seed, &path)
